@@ -49,6 +49,15 @@ CHECKS["C02"] = dict(text="whenever oRatio answers 'unsolvable' on a generated p
 CHECKS["C17"] = dict(text="generated class hierarchies (single/multiple/diamond inheritance, fields with initialisers, constructors with init lists and super-constructor calls, existential object fields), enums with unions, instances and variables declared in interleaved order and ==/!=/field constraints; a reference object model computes instance sets, field values and (by brute force) all satisfying value combinations, which are compared with the state exposed right after read() and with the solution on Debug and Release builds",
                      note="enum values are identifiable only by identity in the JSON (domains compared by size / inclusion / equality pattern); single-valued enums are not generated",
                      technique="runtime monitoring: differential execution against a reference object model with brute-force constraint semantics")
+_PLAN_NOTE = "trusts the reference checkers over the solution JSON / extract_timelines() / solver_listener events; problems are small (<= ~12 atoms) and built around planted plans; timeouts are inconclusive"
+CHECKS["C03"] = dict(text="generated problems with rules, sub-goals, recursion that terminates only by unification, disjunctions with costs and state-variable timelines; the causal graph recorded through the upstream solver_listener plus the final truth value of every phi/rho and the atom states are checked: every in-plan flaw expanded and resolved, unified atoms map to active atoms of the same predicate with equal arguments, rule sub-goals present and in plan, support acyclic",
+                     note=_PLAN_NOTE, technique="runtime monitoring: offline checker over the recorded causal-graph event log and the reported plan")
+CHECKS["C04"] = dict(text="state-variable problems built around planted schedules (touching atoms, zero-length atoms, free tau, tight horizons) in the configuration matrix; active atoms per instance compared pairwise with half-open intervals in exact arithmetic and the extracted timeline compared segment by segment",
+                     note=_PLAN_NOTE, technique="runtime monitoring: interval-sweep oracle over reported plans and extracted timelines")
+CHECKS["C05"] = dict(text="reusable-resource problems built around planted load profiles (exact fits, zero amounts, several resources, free resource variables); at every atom start the amounts of the covering active Use atoms are summed exactly and compared with the capacity, and every timeline segment's usage with the recomputed sum",
+                     note=_PLAN_NOTE, technique="runtime monitoring: conservation/sweep oracle over reported plans and extracted timelines")
+CHECKS["C06"] = dict(text="facts and goals on plain Interval/Impulse predicates, rule sub-goals, agents, state variables and resources with release/deadline constraints and tight horizons; every active temporal atom is checked against origin <= start <= end <= horizon, duration = end - start >= 0 (origin <= at <= horizon)",
+                     note=_PLAN_NOTE, technique="runtime monitoring: direct evaluation of the temporal invariant on every reported atom")
 NA_REASON = "check not built yet in this round (planned; see DESIGN.md)"
 
 hooks_commits = subprocess.run(["git", "-C", "/repo", "log", "--format=%h", "--grep=ORATIO_VERIF"], stdout=subprocess.PIPE, text=True).stdout.split()
